@@ -92,7 +92,7 @@ func (l *liveState) dep(ctx context.Context, field string, id int64) error {
 			l.execFired = map[int]int{}
 		}
 		l.execFired[inst] = l.failKind[key]
-		if k := l.failKind[key]; k >= 1 && k <= 3 && l.onFailure != nil {
+		if k := l.failKind[key]; ((k >= 1 && k <= 3) || k == 7) && l.onFailure != nil {
 			l.onFailure(inst)
 		}
 		switch l.failKind[key] {
@@ -105,6 +105,11 @@ func (l *liveState) dep(ctx context.Context, field string, id int64) error {
 		case 3:
 			l.w.c.Fault("resolver-panic")
 			panic("SECRET-panic-" + key)
+		case 7:
+			// an ordinary failure that wraps a client-safe error further down: the
+			// failure itself is not marked safe, so its text stays on the server
+			l.w.c.Fault("resolver-error-wrapping-safe-error")
+			return fmt.Errorf("SECRET-outer-%s: %w", key, graphql.NewSafeError("safe-BURIED-%s", key))
 		case 5:
 			// an ordinary failure whose cause happens to be a cancellation further
 			// down (for instance a timed-out backend call): not a cancellation of
